@@ -2922,6 +2922,8 @@ def eye(N: int, M: int | None = None, k: int = 0,  # noqa: N803
     if not isinstance(k, INT_CLASSES):
         raise ValueError(f"k must be int, got {type(k)}.")
 
+    dtype = np.dtype(dtype)
+
     return IndexLambda(expr=prim.If(parse(f"(_1 - _0) == {k}"), 1, 0),
                        shape=(N, M), dtype=dtype, bindings=constantdict({}),
                        tags=_get_default_tags(),
